@@ -966,6 +966,7 @@ func (fr *Frame) execUnOp(in *ssa.UnOp, st *State) {
 		// channel receive: arbitrary value
 		fr.lockWait(in, st, "channel receive")
 		fc.note("channel receive yields an arbitrary value; blocking not modelled")
+		fr.noteReceived(fr.val(in.X).T, st)
 		if in.CommaOk {
 			v := fc.freshVal("recv", in.Type().(*types.Tuple).At(0).Type())
 			ok := fc.sc.Fresh("recvok", SBool)
